@@ -731,6 +731,10 @@ func derives(v ssa.Value, pred func(ssa.Value) bool) bool {
 			return walk(x.X)
 		case *ssa.Extract:
 			return walk(x.Tuple)
+		case *ssa.Next:
+			return walk(x.Iter) // key/value of a range over a map or string
+		case *ssa.Range:
+			return walk(x.X)
 		case *ssa.FieldAddr:
 			return walk(x.X)
 		case *ssa.Field:
